@@ -162,11 +162,13 @@ theorem runQ_ok {P} (S : Sys P) (H : Hyp S) (qs : List (P × Int)) (t : Tbl) (ht
 
 /-! ### the two keyings -/
 
-/-- `TranspositionTable::setWhiteContempt`'s hash, reused by the repaired eval cache -/
+/-- `Evaluate::setWhiteContempt` after the repair: the hash of `TranspositionTable::setWhiteContempt` with the low
+    16 bits (the table index) cleared -/
 def contemptHash (c : Int) : Nat :=
-  if c > 0 then (0x9E3779B97DE88147 * c.toNat) % 2^64
-  else if c < 0 then (2^64 - 1) - (0x9E3779B97DE88147 * (-c).toNat) % 2^64
-  else 0
+  let h := if c > 0 then (0x9E3779B97DE88147 * c.toNat) % 2^64
+    else if c < 0 then (2^64 - 1) - (0x9E3779B97DE88147 * (-c).toNat) % 2^64
+    else 0
+  h &&& hiMask
 
 /-- repaired code: key = historyHash ^ contemptHash -/
 def sysFixed {P} (raw : P → Int → Int) (hist : P → Nat) : Sys P := { raw := raw, key := fun p c => hist p ^^^ contemptHash c }
